@@ -152,11 +152,11 @@ def check(case, ctx):
             if r2.raised is not None:
                 fails.append({"monitor": "c06.raised", "sig": f"{sig}|deleted|{type(r2.raised.exc).__name__}", "detail": f"{op} on the input without null-key rows raised {r2.raised!r}"})
             elif rowlike:
-                d = ops.diff_rows([r1.vals[i] for i in keep], r2.vals, tol, what=f"{op} full vs null-key rows deleted", rows=keep)
+                d = ops.diff_rows([r1.vals[i] for i in keep], r2.vals, tol, nullzero=op in ("var", "std"), what=f"{op} full vs null-key rows deleted", rows=keep)
                 if d:
                     fails.append({"monitor": "c06.delete", "sig": sig, "detail": d})
             elif kind == "red":
-                d = ops.diff_red(r1, r2, tol, what=f"{op} full vs null-key rows deleted")
+                d = ops.diff_red(r1, r2, tol, nullzero=op in ("var", "std"), what=f"{op} full vs null-key rows deleted")
                 if d:
                     fails.append({"monitor": "c06.delete", "sig": sig, "detail": d})
             else:  # selection
